@@ -46,7 +46,7 @@ Section Unfold.
         rw <- get_wires e rest ;;
         jt <- wire_types st jw ;;
         rt <- wire_types st rw ;;
-        d <- add_node st (TailLoop jt [] rt 0) (b_parent b) ;;
+        d <- add_node st (TailLoop (jt ++ rt) [] [] (lenN jt)) (b_parent b) ;;
         io <- init_io (fst d) (snd d) (jt ++ rt) ;;
         x <- wire_up (fst io) (snd d) (jw ++ rw) ;;
         y <- exec_region2 tys body (snd io) (fst x) e ;;
@@ -131,7 +131,7 @@ Section Unfold.
   Proof. reflexivity. Qed.
   Lemma exec_prog2_QLoop just rest body e :
     exec_prog2 tys (QLoop just rest body) e =
-        io <- init_io (new_store (TailLoop just [] rest 0)) 0 (just ++ rest) ;;
+        io <- init_io (new_store (TailLoop (just ++ rest) [] [] (lenN just))) 0 (just ++ rest) ;;
         exec_region2 tys body (snd io) (fst io) e.
   Proof. reflexivity. Qed.
   Lemma exec_prog2_QCond rows others sumty cs e :
